@@ -17,6 +17,11 @@ CHECKS = {
          "Trusted: the 30-line reference resolver in harness/src/props/c18.rs (written from the property text). One-segment specifiers '.'/'..' (docs and code disagree) and relative-base '..' underflow are counted, not judged.",
          "exhaustive enumeration + property-based random generation (proptest choice tape) against a reference model",
          "§10 C18"),
+ "C09": ("exploration",
+         "Seeded random acyclic module graphs (2-6 modules quick, 2-8 thorough) over named/default/namespace/side-effect imports, `export {x as y} from`, `export * from`, `export * as ns from`, diamonds, eight equivalent spellings per path, directories up to 3 deep and importers directly under '/', live counters read directly, through namespaces and through re-exports; each graph is loaded on fresh interpreters under 4 host supply schedules (batched/one-at-a-time/partial, request/reversed/permuted order, duplicate re-supply) and judged against a graph model (closed-form values and exports), a structural oracle on every NeedImports list and on the load log, and schedule-independence of result and exports. Sampled, not exhaustive.",
+         "Trusted: the graph model and the reference path resolver in harness/src/props/c09.rs; the import relation scanned from the generated source texts. Early supply of not-yet-requested modules is outside the generated domain (provide_module documents only pending imports); VERIF_C09_EARLY=1 adds it for probing.",
+         "property-based random generation (proptest choice tape) against a reference model + metamorphic comparison across host schedules",
+         "§10 C09"),
 }
 
 NOT_YET = {}
